@@ -36,6 +36,7 @@ def install(eng):
         M[p + "div_euclid"] = m_div_euclid
         M[p + "rem_euclid"] = m_rem_euclid
         M[p + "pow"] = m_pow
+        M[p + "checked_pow"] = m_checked_pow
     p = "core::f64::<impl f64>::"
     for name in ("abs", "floor", "ceil", "round", "trunc", "sin", "cos", "sqrt"):
         M[p + name] = mk_f1(name)
@@ -70,6 +71,9 @@ def _int2(args):
     a, b = args[0], args[1]
     if isinstance(a, Int) and isinstance(b, Int):
         return a, b
+    import os
+    if os.environ.get("HV_DEBUG"):
+        print("INT2", repr(a), repr(b))
     return None
 
 
@@ -325,6 +329,24 @@ def m_pow(eng, st, c, args, dest_tid, t):
     return res
 
 
+def m_checked_pow(eng, st, c, args, dest_tid, t):
+    """iN::checked_pow with a constant base and a bounded exponent: enumerated; otherwise an arbitrary Option."""
+    a, e = args[0], args[1]
+    if not (isinstance(a, Int) and isinstance(e, Int)):
+        return NotImplemented
+    ac = eng.const_of(st, a)
+    elo, ehi = eng.fm_bounds(st, e.lin)
+    lo, hi = eng.int_range(a.tid)
+    if ac is None or elo == -INF or ehi == INF or ehi - elo > 64:
+        return NotImplemented
+    out = []
+    for k in range(int(elo), int(ehi) + 1):
+        for s2 in eng.assume(st.clone(), c_lin("eq", e.lin - k)):
+            v = ac ** k
+            out.append((s2, eng.mk_option(dest_tid, Int(Lin.const(v), a.tid) if lo <= v <= hi else None)))
+    return out
+
+
 def mk_f1(name):
     def m(eng, st, c, args, dest_tid, t):
         a = args[0]
@@ -517,7 +539,16 @@ def m_slice_get(eng, st, c, args, dest_tid, t):
     for s2 in outs:
         out.append((s2, eng.mk_option(dest_tid, None)))
     for s2 in ins:
-        if n <= 64:
+        et = eng.types[a.tid].get("elem") if a.tid is not None else None
+        if eng.sym_select and et is not None and eng.types[et]["k"] == "adt":
+            # read-only access at a symbolic index: some element, i.e. an arbitrary value of the element type
+            eng.nsel = getattr(eng, "nsel", 0) + 1
+            eng._pending_cells = []
+            v = eng.sym(et, "sel%d" % eng.nsel)
+            for k2, inner in eng._pending_cells:
+                s2.store[k2] = inner
+            out.append((s2, eng.mk_option(dest_tid, Ref(val=v))))
+        elif n <= 64:
             for k in range(n):
                 for s3 in eng.assume(s2.clone(), c_lin("eq", i.lin - k)):
                     out.append((s3, eng.mk_option(dest_tid, _elem_ref(eng, s3, args[0], a, k))))
@@ -690,6 +721,7 @@ class IterV(V):
 def install_iters(eng):
     M = eng.models
     M["core::slice::<impl [T]>::iter"] = m_slice_iter
+    M["core::slice::iter::<impl core::iter::IntoIterator for &'a [T]>::into_iter"] = m_slice_iter
     M["core::iter::Iterator::zip"] = m_iter_zip
     M["core::iter::Iterator::enumerate"] = m_iter_enumerate
     M["core::iter::Iterator::take"] = m_iter_take
